@@ -1688,6 +1688,7 @@ def bytes_part(ctx, cfgs, n_streams, program_bytes):
         ctx.count("bytes:real-dump")
         cases.append((expr, expected, case))
     pool = dumps + program_bytes
+    pending = []
     for i in range(n_streams):
         ci = rng.randrange(len(cfgs))
         cfg = cfgs[ci]
@@ -1704,10 +1705,8 @@ def bytes_part(ctx, cfgs, n_streams, program_bytes):
         ctx.seen(("bytes", cfg[0], data), nontrivial=bool(res["calls"]))
         direct_oracle(ctx, case, res, effective_allow_py(cfg[1]))
         obs, wv = real_obs(res, True)
-        expr, expected = bytes_expr(data, coq_world(ci), obs, wv, False, res["exc"])
         ctx.count("bytes:mutated")
         ctx.count("bytes:mutated:outcome:" + res["cls"])
-        ctx.count("bytes:mutated:genops:" + expected[0][0])
         if res["calls"]:
             ctx.count("bytes:mutated:with-lookups")
         if i % 4 == 0 and data:
@@ -1725,10 +1724,205 @@ def bytes_part(ctx, cfgs, n_streams, program_bytes):
             ctx.count("bytes:mutated:also-through-a-buffered-file")
             if [c[:2] for c in res_f["calls"]] != [c[:2] for c in res["calls"]]:
                 ctx.count("bytes:mutated:buffered-file-reader-took-another-path(frame remainders are not dropped there)")
-        if any(o[0] in ("REDUCE", "NEWOBJ", "NEWOBJ_EX", "OBJ", "INST", "BUILD") for o in expected[0][1]):
-            ctx.count("bytes:mutated:with-call-opcodes(at most these are compared up to the first call only)")
+        pending.append((ci, data, res, obs, wv, case))
+    # the call / build oracles of each mutated stream, measured on the real constructors
+    oracles = oracle_pass(ctx, cfgs, [(ci, data) for ci, data, _r, _o, _w, _c in pending])
+    for (ci, data, res, obs, wv, case), (call_fail, build_fail, exact, asked) in zip(pending, oracles):
+        if asked:      # results of calls are symbolic in the model: outcome and names are compared, not the value
+            obs, wv = obs[:3] + [None], False
+        expr, expected = bytes_expr(data, coq_world(ci, call_fail, build_fail), obs, wv, exact, res["exc"])
+        ctx.count("bytes:mutated:genops:" + expected[0][0])
         cases.append((expr, expected, case))
     ctx.coq_cases("c15_bytes", world_header(cfgs), cases, shard=120, label="raw bytes (real dumps, mutated streams)")
+
+
+# ---------------------------------------------------------------------------
+# measuring the call / build oracles of a mutated stream: the model (optimistic oracles) lists the calls it
+# makes, in order; they are replayed on the real constructors until the first one that raises
+# ---------------------------------------------------------------------------
+
+def _unescape(s):
+    out, i = [], 0
+    while i < len(s):
+        if s[i] == "{":
+            j = s.index("}", i)
+            out.append(chr(int(s[i + 1:j])))
+            i = j + 1
+        else:
+            out.append(s[i])
+            i += 1
+    return "".join(out)
+
+
+def parse_sxq(txt):
+    """inverse of PickleShow.show_sxq: atoms <len:text> -> str (un-escaped), numbers -> int, (...) -> list"""
+    pos = 0
+
+    def item():
+        nonlocal pos
+        c = txt[pos]
+        if c == "(":
+            pos += 1
+            out = []
+            while txt[pos] != ")":
+                if txt[pos] == " ":
+                    pos += 1
+                    continue
+                out.append(item())
+            pos += 1
+            return out
+        if c == "<":
+            j = txt.index(":", pos)
+            n = int(txt[pos + 1:j])
+            t = txt[j + 1:j + 1 + n]
+            assert txt[j + 1 + n] == ">", "bad atom"
+            pos = j + 2 + n
+            return _unescape(t)
+        j = pos
+        while j < len(txt) and (txt[j].isdigit() or txt[j] == "-"):
+            j += 1
+        v = int(txt[pos:j])
+        pos = j
+        return v
+    r = item()
+    assert pos == len(txt), "trailing text"
+    return r
+
+
+class _NoRebuild(Exception):
+    pass
+
+
+def _call(kind, rc, rargs):
+    if kind == "reduce":
+        return rc(*rargs)
+    if kind == "newobj":
+        return rc.__new__(rc, *rargs)
+    if kind == "newobj_ex":
+        return rc.__new__(rc, *rargs[0], **rargs[1])
+    return py_instantiate(rc, rargs)
+
+
+def rebuild(x):
+    """a real object for a canonical form printed by the model (PickleShow.sx_obj)"""
+    if x == "None":
+        return None
+    if x == "NoneType":
+        return type(None)
+    if not isinstance(x, list) or not x:
+        raise _NoRebuild(repr(x))
+    t = x[0]
+    if t == "b":
+        return x[1] == "T"
+    if t == "i":
+        return x[1]
+    if t == "f":
+        return x[1] / 2
+    if t == "fb":
+        return struct.unpack(">d", x[1].to_bytes(8, "big"))[0]
+    if t == "s":
+        return x[1]
+    if t == "y":
+        return x[1].encode("latin-1")
+    if t == "ba":
+        return bytearray(x[1].encode("latin-1"))
+    if t == "T":
+        return tuple(rebuild(y) for y in x[1])
+    if t == "L":
+        return [rebuild(y) for y in x[1]]
+    if t == "D":
+        return {rebuild(k): rebuild(v) for k, v in x[1]}
+    if t == "S":
+        return {rebuild(y) for y in x[1]}
+    if t == "F":
+        return frozenset(rebuild(y) for y in x[1])
+    if t == "G":
+        return getattr(sys.modules[x[1]], x[2])
+    if t == "inst":
+        o = _call(x[1], rebuild(x[2]), rebuild(x[3]))
+        for st in x[4]:
+            py_build(o, rebuild(st))
+        return o
+    raise _NoRebuild(repr(x)[:80])
+
+
+def measure_oracles(queries):
+    """queries: the parsed output of show_queries.  -> (call_fail, build_fail, exact?): the table entries of the first
+    call / build that raises on the real constructors (everything after it is never asked); exact is False when a
+    query could not be replayed (then the stream is compared up to its first call only)"""
+    for q in queries:
+        try:
+            if q[0] == "ext_cached":
+                continue
+            if q[0] == "build":
+                inst, st = rebuild(q[1]), rebuild(q[2])
+            else:
+                rc, rargs = rebuild(q[1]), rebuild(q[2])
+        except BaseException:  # noqa: an argument that cannot be rebuilt
+            return [], [], False
+        try:
+            if q[0] == "build":
+                py_build(inst, st)
+            else:
+                _call(q[0], rc, rargs)
+        except BaseException:  # noqa
+            return ([], [[q[1], q[2]]], True) if q[0] == "build" else ([[q[0], q[1], q[2]]], [], True)
+    return [], [], True
+
+
+def coq_eval_big(ctx, name, header, expr, timeout=900):
+    """ctx.coq_eval with a larger OCaml stack (printing a long string recurses)"""
+    fn = os.path.join(ctx.scratch, "eval_%s.v" % name)
+    with open(fn, "w") as f:
+        f.write("From Coq Require Import List String ZArith NArith Bool.\nImport ListNotations.\nFrom DD Require Import Base.Sx.\n")
+        f.write(header + "\nLocal Open Scope string_scope.\nEval vm_compute in (%s).\n" % expr)
+    rc, out = core.sh("ulimit -s 4000000 2>/dev/null || ulimit -s unlimited 2>/dev/null; coqc -Q %s DD %s" % (core.THEORIES, fn),
+                      timeout=timeout, cwd=ctx.scratch)
+    m = _re.search(r'"BEGIN\n(.*)END"', out, _re.S)
+    if rc != 0 or not m:
+        ctx.break_("correspondence", {"name": name, "error": "coqc failed: " + out[-1500:]})
+        return None
+    return m.group(1).replace('""', '"')
+
+
+def oracle_pass(ctx, cfgs, streams):
+    """streams: [(ci, data)].  One Coq evaluation per chunk prints the call / build queries of every stream's run under
+    optimistic oracles -> [(call_fail, build_fail, exact)] per stream"""
+    from concurrent.futures import ThreadPoolExecutor
+    hdr = world_header(cfgs)
+    chunk = 80
+    parts = [streams[i:i + chunk] for i in range(0, len(streams), chunk)]
+
+    def one(k):
+        body = " ++ ".join("show_queries %s %s %s" % (coq_world(ci), coq_c_dialect(data), coq_bytes(data)) for ci, data in parts[k])
+        return coq_eval_big(ctx, "c15_queries_%d" % k, hdr, '"BEGIN" ++ nl ++ %s ++ "END"' % body)
+    with ThreadPoolExecutor(max_workers=core.NCPU) as ex:
+        outs = list(ex.map(one, range(len(parts))))
+    res = []
+    for part, txt in zip(parts, outs):
+        lines = txt.split("\n")[:len(part)] if txt is not None else []
+        if len(lines) != len(part):
+            ctx.break_("correspondence", {"name": "oracle pass", "error": "expected %d lines, got %d" % (len(part), len(lines))})
+            res += [([], [], False, True)] * len(part)
+            continue
+        for line in lines:
+            try:
+                q = parse_sxq(line)
+            except Exception as e:  # noqa
+                ctx.break_("correspondence", {"name": "oracle pass", "error": "unparsable query line: %r (%s)" % (line[:200], e)})
+                res.append(([], [], False, True))
+                continue
+            if not q:
+                res.append(([], [], True, False))
+                ctx.count("bytes:mutated:no-call-asked")
+                continue
+            with _MemLimit():
+                r = measure_oracles(q)
+            ctx.count("bytes:mutated:oracles-measured" if r[2] else "bytes:mutated:oracles-not-replayable(compared up to the first call)")
+            if r[0] or r[1]:
+                ctx.count("bytes:mutated:a-call-or-build-raises")
+            res.append(r + (True,))
+    return res
 
 
 # ---------------------------------------------------------------------------
